@@ -21,12 +21,12 @@ NAME = "K"
 PROPERTY = "C14"
 RUNS = {"quick": 900, "thorough": 40000}
 RUN_WALL_CAP = 240.0
-REQUIRED_PROBES = {"quick": ["randomized_stage_ran", "exact_regime:k_ge_min_dim", "exact_regime:rank_one", "exact_regime:transpose_exact", "sdp_stage_k1", "sdp_stage_k2", "unequal_dims", "dim_scalar", "dim_omitted", "target_given", "non_hermitian", "projection", "own_upper_bound:dps2", "own_upper_bound:bilinear", "ppt_edge_operator", "two_operators_same_shape", "two_operators_k_ge_2", "target:just_below_attained"], "thorough": ["randomized_stage_ran", "exact_regime:k_ge_min_dim", "exact_regime:rank_one", "exact_regime:transpose_exact", "sdp_stage_k1", "sdp_stage_k2", "unequal_dims", "dim_scalar", "dim_omitted", "target_given", "non_hermitian", "projection", "result_differs_between_rng_states", "own_upper_bound:dps2", "own_upper_bound:bilinear", "ppt_edge_operator", "two_operators_same_shape", "two_operators_k_ge_2", "target:just_below_attained"]}
+REQUIRED_PROBES = {"quick": ["randomized_stage_ran", "exact_regime:k_ge_min_dim", "exact_regime:rank_one", "exact_regime:transpose_exact", "sdp_stage_k1", "sdp_stage_k2", "unequal_dims", "dim_scalar", "dim_omitted", "target_given", "non_hermitian", "projection", "own_upper_bound:dps2", "own_upper_bound:bilinear", "ppt_edge_operator", "two_operators_same_shape", "two_operators_k_ge_2", "target:just_below_attained", "structured_operator"], "thorough": ["randomized_stage_ran", "exact_regime:k_ge_min_dim", "exact_regime:rank_one", "exact_regime:transpose_exact", "sdp_stage_k1", "sdp_stage_k2", "unequal_dims", "dim_scalar", "dim_omitted", "target_given", "non_hermitian", "projection", "result_differs_between_rng_states", "own_upper_bound:dps2", "own_upper_bound:bilinear", "ppt_edge_operator", "two_operators_same_shape", "two_operators_k_ge_2", "target:just_below_attained", "structured_operator"]}
 COMPONENTS = {"real": ["toqito.matrix_props.sk_operator_norm incl. the randomised lower bound", "toqito.state_props.sk_vector_norm, schmidt_rank, schmidt_decomposition", "toqito.perms.swap / symmetric_projection", "toqito.channels.partial_trace / partial_transpose / realignment", "scipy.linalg.eigh, cvxpy + SCS/Clarabel"], "stub": ["numpy process-global legacy RNG state (set from the choice source; adversary draws between calls)"]}
 RULE = ("one run = one operator, or two operators of the same local dimensions and k used alternately (density / PSD / projection of seeded rank / rank one / indefinite Hermitian / non-Hermitian; local dimensions 2..4, unequal allowed; k = 1..min dim; dim as list / scalar / omitted; effort 0..2; target set or not) "
         "evaluated under 2..4 global-RNG states with adversary draws in between; non-trivial = the randomised stage executed (global RNG state advanced by the call); distinct = distinct digest of (operator, k, options, RNG states)")
 SHRINK_ORDER = ["config", "operator", "rng"]
-SLACK = 1e-4
+SLACK = 3e-4  # relative to the operator norm; clean-tree excesses observed up to ~4e-5 (evidence: closest_margins)
 
 
 def _lib():
@@ -54,7 +54,7 @@ def draw_operator(st, tier, like=None, prefer_k2=False):
     n = d0 * d1
     rng = st.nprng()
     cplx = bool(st.draw(2))
-    kind = st.weighted([("density", 4), ("psd", 2), ("projection", 3), ("rank_one", 2), ("indefinite", 2), ("non_hermitian", 1), ("low_rank_psd", 2), ("ppt_edge", 1), ("hermitian_pq", 1)])
+    kind = st.weighted([("density", 4), ("psd", 2), ("projection", 3), ("rank_one", 2), ("indefinite", 2), ("non_hermitian", 1), ("low_rank_psd", 2), ("ppt_edge", 1), ("hermitian_pq", 1), ("diagonal", 2), ("block_diagonal", 2)])
     if kind == "ppt_edge" and like is not None:
         kind = "density"
     if kind == "ppt_edge":
@@ -111,6 +111,17 @@ def draw_operator(st, tier, like=None, prefer_k2=False):
         if st.draw(2):
             v = u
         x = u @ v.conj().T
+    elif kind == "diagonal":
+        # structured operators: iterates of the alternating search degenerate easily on these
+        x = np.diag(rng.random(n) * (rng.random(n) < 0.8))
+        if not x.any():
+            x[0, 0] = 1.0
+        x = x.astype(complex) if cplx else x
+    elif kind == "block_diagonal":
+        x = np.zeros((n, n), dtype=complex if cplx else float)
+        for i in range(d0):
+            g = gin(d1, 1 + st.draw(d1))
+            x[i * d1:(i + 1) * d1, i * d1:(i + 1) * d1] = g @ g.conj().T
     elif kind == "indefinite":
         g = gin(n, n)
         x = (g + g.conj().T) / 2
@@ -197,7 +208,8 @@ def witnesses(x, k, dims, rng, starts=6, iters=25):
                 b = vecs[:, -1].reshape(d1, k)
                 v = (a @ b.T).reshape(-1)
                 nv = np.linalg.norm(v)
-                if nv == 0:
+                if not np.isfinite(nv) or nv < 1e-12 or not np.all(np.isfinite(v)):
+                    val = None  # the own pencil degenerated (structured operator): discard this start
                     break
                 v = v / nv
                 nval = float(np.real(v.conj() @ hs @ v))
@@ -207,9 +219,13 @@ def witnesses(x, k, dims, rng, starts=6, iters=25):
                 val = nval
             if val is not None:
                 v = (a @ b.T).reshape(-1)
-                v = v / np.linalg.norm(v)
-                assert np.linalg.matrix_rank(v.reshape(d0, d1), tol=1e-9) <= k
-                best = max(best, abs(complex(v.conj() @ x @ v)))
+                nv = np.linalg.norm(v)
+                if np.isfinite(nv) and nv > 1e-12 and np.all(np.isfinite(v)):
+                    v = v / nv
+                    # by construction v = vec(A B^T) with k columns: Schmidt rank <= k; the value is recomputed from v
+                    sv = np.linalg.svd(v.reshape(d0, d1), compute_uv=False)
+                    if int(np.sum(sv > 1e-9 * max(sv[0], 1e-300))) <= k:
+                        best = max(best, abs(complex(v.conj() @ x @ v)))
     # bilinear witnesses for non-Hermitian operators: product vectors on both sides
     for _ in range(20):
         va = np.kron(rng.standard_normal(d0) + 1j * rng.standard_normal(d0), rng.standard_normal(d1) + 1j * rng.standard_normal(d1))
@@ -241,6 +257,8 @@ def make_subject(cs, res, tier, stream, like=None, prefer_k2=False):
         res.probe("projection")
     if meta["kind"] == "ppt_edge":
         res.probe("ppt_edge_operator")
+    if meta["kind"] in ("diagonal", "block_diagonal"):
+        res.probe("structured_operator")
     sub.dim_arg = {"list": list(dims), "scalar": dims[0], "omitted": None}[meta["dim_arg"]]
     # reference values
     sub.rank = int(np.linalg.matrix_rank(x))
@@ -352,6 +370,8 @@ def run(cs, tier, run_index):
             res.violate("C14.sk.order", why="non-finite bound", lower=lo, upper=up, rng_seed=seed, **meta)
             continue
         res.checks_sim += 2
+        res.margin("lower_minus_upper", (lo - up) / slack)
+        res.margin("witness_minus_upper", (sub.wit - up) / slack)
         if lo > up + slack:
             res.violate("C14.sk.order", lower=lo, upper=up, op_norm=opn, rng_seed=seed, adversary_draws=adv, call_index=i, **meta)
         if sub.wit > up + slack:
@@ -360,6 +380,7 @@ def run(cs, tier, run_index):
             res.violate("C14.sk.order", why="lower bound above the operator norm", lower=lo, op_norm=opn, rng_seed=seed, call_index=i, **meta)
         if sub.own_upper is not None:
             res.checks_sim += 1
+            res.margin("lower_minus_own_upper:" + sub.own_upper[0], (lo - sub.own_upper[1]) / (slack + 1e-5 * max(opn, 1)))
             if lo > sub.own_upper[1] + slack + 1e-5 * max(opn, 1):
                 res.violate("C14.sk.lower_valid", lower=lo, own_upper_bound_on_true_norm=sub.own_upper[1], method=sub.own_upper[0], upper=up, witness=sub.wit, op_norm=opn, rng_seed=seed, call_index=i, **meta)
             if sub.wit > sub.own_upper[1] + slack + 1e-5 * max(opn, 1):
